@@ -11,7 +11,7 @@ PROPERTY = 'C07'
 LEVEL = 'exploration'
 RULE = ('Hypothesis: identity over mapped names (case variants), unmapped names, multi-valued / empty / non-ASCII values x policy {absent, default, per-SP, both} with '
         'attribute_restrictions {absent, None, name only, regex lists}, entity_categories subsets of the shipped modules, fail_on_missing_requested x SP metadata with 0-2 '
-        'AttributeConsumingServices (required/optional spelled true/false/1/0, by friendly name and/or name+format, value constraints, unsatisfiable requirements) x SP entity categories x '
+        'identity values handed over as str / bytes / int lists or a bare single value; AttributeConsumingServices (required/optional spelled true/false/1/0, by friendly name and/or name+format, value constraints, unsatisfiable requirements) x SP entity categories x '
         '{create_authn_response, create_attribute_response}. Non-trivial = the model forbids at least one (attribute, value) of the identity; distinct = distinct case.')
 ASSUMPTIONS = ['reference policy = most permissive reading of the statement and docs/howto/config.rst (subset oracle: releasing less is never flagged)',
                'responses are unsigned (no tool involved); output read with stdlib ElementTree']
@@ -29,7 +29,7 @@ NAMES = sorted(OIDS)
 VARIANTS = ['GivenName', 'MAIL', 'Sn', 'displayname']
 UNMAPPED = ['secretAttr', 'internalId', 'x-role']
 VALUES = ['staff', 'member', 'student', 'alice@example.org', 'bob@other.example', 'Alice', u'\xc5sa', '', 'A1', 'secret-token-1', 'staff ']
-PATTERNS = ['^staff$', 'mem.*', r'.*@example\.org', 'A', 'student|staff', '.*']
+PATTERNS = ['^staff$', 'mem.*', r'.*@example\.org', 'A', 'student|staff', '.*', '^1[0-3]$']
 CATS = {'coco': 'http://www.geant.net/uri/dataprotection-code-of-conduct/v1', 'rs': 'http://refeds.org/category/research-and-scholarship',
         're': 'http://www.swamid.se/category/research-and-education', 'hei': 'http://www.swamid.se/category/hei-service', 'sfs': 'http://www.swamid.se/category/sfs-1993-1153'}
 MODULES = ['edugain', 'refeds', 'swamid', 'incommon']
@@ -55,6 +55,8 @@ def case_strategy():
         req = st.fixed_dictionaries({'attr': st.one_of(st.sampled_from(mapped), st.sampled_from(NAMES)), 'by': st.sampled_from(['friendly', 'name+format', 'both', 'name-only']),
                                      'required': st.sampled_from([True, False, True, False, '1', '0']), 'values': st.lists(st.sampled_from(VALUES[:6]), max_size=2)})
         return st.fixed_dictionaries({'identity': st.just(identity), 'policy': policy, 'services': st.lists(st.lists(req, min_size=1, max_size=4), max_size=2),
+                                      # how the application hands over the values: lists of str (usual), bytes (LDAP style), ints, or a bare single value
+                                      'valrep': st.sampled_from(['str', 'str', 'str', 'str', 'bytes', 'int', 'single']),
                                       'sp_cats': st.lists(st.sampled_from(sorted(CATS)), max_size=3, unique=True),
                                       'call': st.sampled_from(['authn', 'authn', 'attribute'])})
     return identity.flatmap(rest)
@@ -111,16 +113,25 @@ def run(case):
     spec['aa'] = [('https://idp.verif.example/aa', world.SOAP)]
     idp = world.make_idp(world.idp_conf(spec, [md]))
     identity = dict((k, list(v)) for k, v in case['identity'].items())
+    valrep = case.get('valrep', 'str')
+    handed = dict(identity)
+    if valrep == 'bytes':
+        handed = dict((k, [v.encode('utf-8') for v in vs]) for k, vs in identity.items())
+    elif valrep == 'int':
+        handed = dict((k, [VALUES.index(v) + 10 for v in vs]) for k, vs in identity.items())
+        identity = dict((k, [str(VALUES.index(v) + 10) for v in vs]) for k, vs in identity.items())     # the text the values have on the wire
+    elif valrep == 'single':
+        handed = dict((k, (vs[0] if len(vs) == 1 else list(vs))) for k, vs in identity.items())
     try:
         if case['call'] == 'authn':
-            resp = idp.create_authn_response(dict(identity), 'id-req-1', ACS, SP, userid='user-1',
+            resp = idp.create_authn_response(dict(handed), 'id-req-1', ACS, SP, userid='user-1',
                                              name_id_policy=samlp.NameIDPolicy(format=saml.NAMEID_FORMAT_TRANSIENT, allow_create='true'),
                                              authn={'class_ref': build.PASSWORD, 'authn_auth': 'https://idp.verif.example/login'})
         else:
-            resp = idp.create_attribute_response(dict(identity), 'id-req-1', ACS, SP, userid='user-1',
+            resp = idp.create_attribute_response(dict(handed), 'id-req-1', ACS, SP, userid='user-1',
                                                  name_id=saml.NameID(format=saml.NAMEID_FORMAT_TRANSIENT, text='subject-1'))
     except Exception as e:
-        return 'raised|' + type(e).__name__, False
+        return 'raised|' + type(e).__name__ + ('' if valrep == 'str' else '|' + valrep), False
     xml = str(resp)
     ok, pairs = released(xml)
     if case['call'] == 'attribute' and not case['policy']:
@@ -154,7 +165,7 @@ def run(case):
         feats.append('category')
     elif requested:
         feats.append('declared')
-    label = ('success' if ok else 'error') + '|' + '+'.join(feats or ['open']) + ('|forbidden' if forbidden else '')
+    label = ('success' if ok else 'error') + '|' + '+'.join(feats or ['open']) + ('|forbidden' if forbidden else '') + ('' if valrep == 'str' else '|' + valrep)
     return label, bool(forbidden)
 
 
@@ -219,7 +230,21 @@ def known_match(part, case, v):
     return None
 
 
+def representation_cases():
+    """every value representation x every pattern x both calls, over an identity whose attributes each hold a matching and a non-matching value"""
+    out = []
+    for valrep in ('str', 'bytes', 'int', 'single'):
+        for pat in PATTERNS:
+            for call in ('authn', 'attribute'):
+                for attr, vals in (('mail', ['alice@example.org', 'bob@other.example']), ('eduPersonAffiliation', ['staff', 'member', 'student']), ('givenName', ['Alice', 'A1', 'secret-token-1'])):
+                    for vs in ([vals[0]], [vals[-1]], vals):
+                        out.append({'identity': {attr: list(vs), 'sn': ['Smith'] if valrep != 'int' else ['staff']}, 'policy': {'default': {'attribute_restrictions': {attr: [pat], 'sn': None}}},
+                                    'services': [], 'sp_cats': [], 'call': call, 'valrep': valrep})
+    return out
+
+
 def parts(tier):
     quick = tier != 'thorough'
-    return [Part('policies', run, strategy=case_strategy, examples=3000 if quick else 200000),
+    return [Part('value-representations', run, cases=representation_cases, exhaustive=True),
+            Part('policies', run, strategy=case_strategy, examples=3000 if quick else 200000),
             Part('sequences', run_sequence, strategy=sequence_strategy, examples=1000 if quick else 50000)]
